@@ -25,8 +25,8 @@ CHECKS = {
             TRUST_CRDT + " The document reference derives container identities for the root, the top node of a put value and array elements only; the generator keeps object values flat accordingly.",
             "DESIGN.md §4 C02"),
     "C03": ("exploration", "runtime monitoring: lock-step comparison of one replica with the plain data structure after every call, valid and invalid arguments",
-            "Every call's error-ness, return value, readable state, size and pending-operation count are compared with an executable plain-structure model after each call of seeded sequences that mix valid calls, each listed class of invalid call, reads, committed and aborted transactions (an aborted one must leave view, reads and pending operations as before) and calls on deleted child documents; panics are caught with the call as witness.",
-            TRUST_CRDT + " Calls the statement does not classify (remove of a missing key, zero-value insert, empty document key) may error or be a no-op.",
+            "Every call's error-ness, return value, readable state, size and pending-operation count are compared with an executable plain-structure model after each call of seeded sequences that mix valid calls, each listed class of invalid call, reads, committed and aborted transactions (an aborted one must leave view, reads and pending operations as before) and calls on deleted child documents; document calls are compared by return value too (previous value of a put over a present key, of a remove, of array delete / update; range reads on arrays); panics are caught with the call as witness.",
+            TRUST_CRDT + " Calls the statement does not classify (remove of a missing key, zero-value insert, empty document key) may error or be a no-op; the return value of a put over a removed (tombstoned) key is not judged.",
             "DESIGN.md §4 C03"),
     "C04": ("exploration", "runtime monitoring: per-step sequence observer with unique tags (no duplicate / lost / resurrected element, insert-at-index, global pairwise order relation never contradicted)",
             "After every step of every seeded history the touched replica's whole sequence is read; membership is checked against the operations that replica has applied, and a global before-relation over element identities must never be contradicted on any replica at any moment (not only at quiescence); histories contain committed and aborted transactions, so replicas also hold state restored from their own snapshot export.",
@@ -72,7 +72,7 @@ CHECKS.update({
             "Every stored snapshot (duid, v) restored into a fresh datatype equals replay(1..v); every user-collection write carries _orda_ver_ = v and the JSON view of replay(1..v); written versions per key never decrease (also when the document has a user key named like the version field); GetLatestDatatype equals the full replay for every position of the latest snapshot; schedules hold a background update at each of its database commands while later pushes commit, run updates back to back, or start them out of order.",
             TRUST_SVC + " Keys avoid NUL, '$' and '.'.", "DESIGN.md §4 C11"),
     "C12": ("exploration", "Go race detector + runtime monitors on real parallel executions: critical-section overlap monitor on hook events, porcupine linearizability of the recorded push-pull history against a sequential specification, independence gate, watchdog",
-            "2-16 goroutines call the real service at the same instant on shared and distinct keys (own context each, cancelled on return) with injected yields at hook points and database commands; at most one handler per key inside the critical section; the call/return history of every key is linearizable against the push-pull specification (porcupine); requests on other keys return while one key's handler is held; every request returns, also ones abandoned by their client (context cancelled before / during / exactly at lock acquisition), and the key stays usable afterwards; no race report attributed to orda code.",
+            "2-16 goroutines call the real service at the same instant on shared and distinct keys (own context each, cancelled on return) with injected yields at hook points and database commands; at most one handler per key inside the critical section; the call/return history of every key is linearizable against the push-pull specification (porcupine); requests on other keys return while one key's handler is held (independence probe: one existing and 40 fresh other keys); every request returns, also ones abandoned by their client (context cancelled before / during / exactly at lock acquisition), and the key stays usable afterwards; no race report attributed to orda code.",
             TRUST_SVC + " Schedules are those the Go scheduler produced under the injected delays; the evidence counts the distinct critical-section entry orders seen. porcupine timeout = inconclusive.", "DESIGN.md §4 C12"),
     "C13": ("exploration", "runtime monitoring: complete entry-mode matrix with outcome oracle (error handler, state transitions, store diff, single datatype document under races, first state vs replay)",
             "The complete matrix entry mode x existing datatype x other client (absent / first / racing) x point of history x type (432 cells) is executed with seeded repetitions; illegal entries must reach the error handler with an empty store diff and no transition to SUBSCRIBED, legal ones report SUBSCRIBED exactly once with a first state equal to the replay up to the response checkpoint; racing subscribe-or-create leaves exactly one datatype document; a first entry attempt aborted by the server (failing database command) must reach the error handler without SUBSCRIBED and the retry is judged like a first entry; an entry response delivered twice and a second open of a held key through the public API change nothing.",
@@ -87,7 +87,7 @@ CHECKS.update({
             "Deterministic part: after every request the broker stand-in's publish log grew by exactly one message {pusher, DUID, new end of log} per datatype that stored operations and by none otherwise. Realtime part: 2-5 REALTIME SDK clients only issue local operations; after logical quiescence all hold equal state with nothing left to push, also after epilogues steered by logical events (push in flight + second local operation + delayed earlier notification; later foreign push announced during the flight) and after a notification naming another datatype id on the key's topic; own notifications trigger no pull.",
             TRUST_SVC + " 'Eventually' is decided as bounded progress to logical quiescence (60 s watchdog => inconclusive). Race reports of this workload are advisory (counted, decided under C20).", "DESIGN.md §4 C18"),
     "C20": ("exploration", "Go race detector + runtime monitors on real parallel use of one datatype: conservation, gapless id order, transaction contiguity and isolation, porcupine linearizability of return values, deadlock/panic watchdog",
-            "2-8 goroutines issue operations and transactions on one datatype of each type while a background goroutine syncs with the real service and remote operations arrive, with yields injected inside BeginTransaction / unlock; the counter equals the sum of successful deltas, every successful call is queued exactly once in identifier order, transaction units are contiguous and isolated, return values are linearizable, no deadlock / panic, and race reports are classified (mutator paths: violation; unlocked public readers: known finding).",
+            "2-8 goroutines issue operations and transactions on one datatype of each type while a background goroutine syncs with the real service and remote operations arrive, with yields injected inside BeginTransaction / unlock; the counter equals the sum of successful deltas, every successful call is queued exactly once in identifier order, transaction units are contiguous and isolated (also as seen by a pack observer reading CreatePushPullPack while units are in progress: a pack never ends inside a unit), return values are linearizable, no deadlock / panic, and race reports are classified (mutator paths: violation; unlocked public readers: known finding).",
             TRUST_SVC + " One known finding (readers outside the lock) is listed in known_findings.json.", "DESIGN.md §4 C20"),
 })
 
